@@ -128,7 +128,6 @@ Qed.
 Definition op_ok_d (D : defs) (o : op) : Prop :=
   match o with
   | OpSetFormula c b _ _ =>
-      body_ok b = true /\
       forall cl r sp v, lookup_cell (fst D) c = Some cl -> refn_body b r = true ->
                         lookup_ref (snd D) r = Some (Some sp, v) -> cl_space cl = sp
   | _ => True
@@ -487,7 +486,7 @@ Qed.
     was evaluated, hit, failed or recomputed in between, and in whichever
     order — give the same answer to every request *)
 Theorem same_edits_same_answers fuel cells refs maxd ops1 ops2 xs1 xs2 st1 st2 :
-  defs_ok cells -> refn_ok (init cells refs maxd) ->
+  refn_ok (init cells refs maxd) ->
   edits ops1 = edits ops2 -> aops_ok (cells, refs) ops1 ->
   run fuel (init cells refs maxd) ops1 = (xs1, st1) -> no_fuel_out xs1 -> s_reent st1 = false ->
   run fuel (init cells refs maxd) ops2 = (xs2, st2) -> no_fuel_out xs2 -> s_reent st2 = false ->
@@ -496,11 +495,11 @@ Theorem same_edits_same_answers fuel cells refs maxd ops1 ops2 xs1 xs2 st1 st2 :
     r1 <> OutOfFuel -> r2 <> OutOfFuel -> r1 <> Err KDeep -> r2 <> Err KDeep ->
     r1 = r2.
 Proof.
-  intros Hok Hrn He Ha1 Hr1 Hn1 Hre1 Hr2 Hn2 Hre2 i r1 r2 st1' st2' E1 E2 N1 N2 K1 K2.
+  intros Hrn He Ha1 Hr1 Hn1 Hre1 Hr2 Hn2 Hre2 i r1 r2 st1' st2' E1 E2 N1 N2 K1 K2.
   set (st0 := init cells refs maxd) in *.
   assert (Ha2 : aops_ok (cells, refs) ops2).
   { apply aops_ok_edits. rewrite <- He. now apply aops_ok_edits. }
-  pose proof (Quiet_init cells refs maxd Hok) as Q0.
+  pose proof (Quiet_init cells refs maxd) as Q0.
   pose proof (RgOK_init cells refs maxd) as R0.
   destruct (run_abs _ _ _ _ _ Hr1 Hn1 Q0 R0 Hrn eq_refl Ha1) as [X|(Q1 & _ & _ & D1 & A1)]; [congruence|].
   destruct (run_abs _ _ _ _ _ Hr2 Hn2 Q0 R0 Hrn eq_refl Ha2) as [X|(Q2 & _ & _ & D2 & A2)]; [congruence|].
@@ -530,7 +529,7 @@ Qed.
 (** the statement of the property: the live history against the model to
     which only the edits were applied, with no evaluation in between *)
 Theorem live_equals_edits_only fuel cells refs maxd ops xs xs' st st_e :
-  defs_ok cells -> refn_ok (init cells refs maxd) -> aops_ok (cells, refs) ops ->
+  refn_ok (init cells refs maxd) -> aops_ok (cells, refs) ops ->
   run fuel (init cells refs maxd) ops = (xs, st) -> no_fuel_out xs -> s_reent st = false ->
   run fuel (init cells refs maxd) (edits ops) = (xs', st_e) -> no_fuel_out xs' -> s_reent st_e = false ->
   forall i r r' st1 st2,
@@ -538,10 +537,10 @@ Theorem live_equals_edits_only fuel cells refs maxd ops xs xs' st st_e :
     r <> OutOfFuel -> r' <> OutOfFuel -> r <> Err KDeep -> r' <> Err KDeep ->
     r = r'.
 Proof.
-  intros Hok Hrn Ha Hr Hn Hre Hr' Hn' Hre'.
+  intros Hrn Ha Hr Hn Hre Hr' Hn' Hre'.
   assert (He : edits ops = edits (edits ops)).
   { unfold edits. clear. induction ops as [|o t IH]; simpl; [reflexivity|].
     destruct (is_eval o) eqn:E; simpl; [exact IH|]. rewrite E. simpl. now rewrite <- IH. }
   exact (same_edits_same_answers fuel cells refs maxd ops (edits ops) xs xs' st st_e
-           Hok Hrn He Ha Hr Hn Hre Hr' Hn' Hre').
+           Hrn He Ha Hr Hn Hre Hr' Hn' Hre').
 Qed.
